@@ -174,8 +174,8 @@ PROPS["C08"] = dict(
     trusted_base=COMMON_TRUST + ["ghost file system contracts (engine/symex/fsmodel.go)"],
 )
 PROPS["C15"] = dict(PROPS["C08"], explanation=FS_NOTE + "Assertions: rotation happens when BytesWritten>=MaxBytes>0 or the file is certainly older than MaxDuration>0 and never when certainly below both; counters restart; active name plain with TimestampOnlyOnRotate; at most MaxFiles rotated files right after a rotation (oldest removed first); configured mode applied.")
-PROPS["C13"]["jobs"].append(dict(harness=BROKER_H, entries=r"^H_C08_Process$|^H_C13_file_specials$", params=dict(quick=dict(R=0, FAULTS=1), thorough=dict(R=1, FAULTS=1)), shards=dict(quick=8, thorough=16)))
-PROPS["C13"]["must_reach"] += ["C13.file.specials", "C13.file.noformat"]
+PROPS["C13"]["jobs"].append(dict(harness=BROKER_H, entries=r"^H_C08_Process$|^H_C13_file_specials$|^H_C13_file_partial_write$", params=dict(quick=dict(R=0, FAULTS=1), thorough=dict(R=1, FAULTS=1)), shards=dict(quick=8, thorough=16)))
+PROPS["C13"]["must_reach"] += ["C13.file.specials", "C13.file.noformat", "C13.file.partial.ok"]
 ENC_H = ["encrypt/common.go", "encrypt/helpers_sym.go", "encrypt/helpers_native.go", "encrypt/c16.go"]
 ENC_DIR = "/repo/filters/encrypt"
 PROPS["C16"] = dict(
